@@ -37,6 +37,38 @@ func (k *idCheck) fail(format string, a ...interface{}) {
 	}
 }
 
+// c04bindingOf builds the tables of the identity check and runs the binding oracle.
+func c04bindingOf(text string, m *ir.Module) []string {
+	k := &idCheck{m: m, globals: map[interface{}]bool{}, locals: map[*ir.Func]map[interface{}]bool{}}
+	for _, g := range m.Globals {
+		k.globals[g] = true
+	}
+	for _, g := range m.Aliases {
+		k.globals[g] = true
+	}
+	for _, g := range m.IFuncs {
+		k.globals[g] = true
+	}
+	for _, g := range m.Funcs {
+		k.globals[g] = true
+		l := map[interface{}]bool{}
+		for _, p := range g.Params {
+			l[p] = true
+		}
+		for _, b := range g.Blocks {
+			l[b] = true
+			for _, i := range b.Insts {
+				l[i] = true
+			}
+			if b.Term != nil {
+				l[b.Term] = true
+			}
+		}
+		k.locals[g] = l
+	}
+	return c04binding(text, m, k)
+}
+
 func c04check(m *ir.Module) []string {
 	k := &idCheck{m: m, globals: map[interface{}]bool{}, typeDefs: map[string]types.Type{}, comdats: map[*ir.ComdatDef]bool{}, attrs: map[*ir.AttrGroupDef]bool{}, mdDefs: map[interface{}]bool{}, locals: map[*ir.Func]map[interface{}]bool{}, seen: map[uintptr]bool{}, seenT: map[types.Type]bool{}}
 	for _, g := range m.Globals {
@@ -311,6 +343,15 @@ func c04test(vs []gen.Variant) (kind, what, detail, printed string) {
 	var bad []string
 	if p := fw.Try(func() { bad = c04check(m) }); p != "" {
 		return "walker-panics", "identity walk panics on the parsed module", p, ""
+	}
+	if len(bad) == 0 {
+		var wrong []string
+		if p := fw.Try(func() { wrong = c04bindingOf(x, m) }); p != "" {
+			return "walker-panics", "binding walk panics on the parsed module", p, ""
+		}
+		if len(wrong) > 0 {
+			return "binding", "a reference is bound to another entity than the one whose name is written", strings.Join(wrong, "\n"), ""
+		}
 	}
 	if len(bad) == 0 {
 		// the same text parsed once more in this process: every reference must resolve inside
